@@ -271,12 +271,6 @@ def main(tier, seed, replay=None):
             run.classify_failure(None, rec)
         elif code == 2:
             run.corr_breaks.append({"what": "implementation no longer fails where the model says the operation is unsupported", **rec})
-    # open findings: unsupported operations for byte arrays (model RErr, agreed by the implementation)
-    for c in cases:
-        if c["enc"] == "EBytes" and c["call"][0] == "join" and (c["call"][1] != [] or any(c["call"][2])) and results.get(c["id"], 0) == 0:
-            sig = "bytes-%s-unsupported" % c["call"][0]
-            run.classify_failure(sig, {"case": {"src": c["src"]}, "observed": outs.get(c["id"]),
-                                       "oracle": "//seq.%s fails on byte arrays although it is defined on the string of the same bytes" % c["call"][0]})
     run.cov.update({
         "evaluations": len(cases), "distinct_nontrivial": dist,
         "rule": "cases = (function, abstract sequences over 2-3 symbols incl. self-overlapping and cut-from-subject patterns) x 3 encodings, "
